@@ -87,6 +87,7 @@ theorem C08_method_call_logs (env : Env α ρ) (fuel : Nat) :
       | done r => cases r <;> simp [runProg, loggedBy]
       | call m a k => simp [runProg, loggedBy]
       | log e k => simp [runProg, loggedBy]
+      | park k => simp [runProg, loggedBy]
   | succ fuel ih =>
     obtain ⟨ihc, ihp⟩ := ih
     constructor
@@ -117,6 +118,7 @@ theorem C08_method_call_logs (env : Env α ρ) (fuel : Nat) :
       cases p with
       | done r => cases r <;> simp [runProg, loggedBy]
       | log e k => simp only [runProg]; exact ihp lvl s k
+      | park k => simp only [runProg]; exact ihp lvl s k
       | call m a k =>
         simp only [runProg]
         have h1 := ihc lvl s m a
